@@ -151,11 +151,8 @@ def run(rep, tier, rng):
             add(f"check_state_accepts {d} {sub} {c.b(acc)}", {"op": "state-accepts", "d": d, "sub": sub}, ("accepts", d, sub))
 
     verdicts = c.coq_eval("C16", "cases", IMPORTS, exprs, shard=400)
-    for ok, m in zip(verdicts, meta):
-        if not ok:
-            rep.violation(f"{m['op']} of (d={m['d']}, sub={m['sub']}) differs from the partition [0,1) [1,sub) then sub-sized chunks",
-                          {"case": m, "python": "assert False, 'slices / sizes differ from the model layout'\n",
-                           "expected": "Model/IdEnsArray.v parts / neuron_slices / out_slices"})
+    structural = [m for ok, m in zip(verdicts, meta) if not ok]
+    n_before = len(rep.violations)
 
     # ---- behaviour with ideal neurons: identity, feedback -------------------------------------------
     ident = [(d, s) for d, s in pairs if d <= (8 if quick else 16)]
@@ -231,3 +228,12 @@ def run(rep, tier, rng):
         if diff.any() and not np.array_equal(diff, want) or (not diff.any() and base[0][k] == 0 and drv[0][k] == 0 and False):
             rep.violation(f"driving neuron_input[{k}] of IdentityEnsembleArray(d={d}, sub={sub}) changed neuron_output entries {np.nonzero(diff)[0].tolist()}",
                           {"case": {"d": d, "sub": sub, "k": k}})
+
+    # layout differences: a failing input exists only if the behaviour checks above failed too
+    behavioural = len(rep.violations) > n_before
+    for m in structural:
+        rep.violation(f"{m['op']} of (d={m['d']}, sub={m['sub']}) differs from the partition [0,1) [1,sub) then sub-sized chunks "
+                      "(correspondence Tie/IdEnsTie.v with Model/IdEnsArray.v)",
+                      {"case": m, "python": "assert False, 'slices / sizes differ from the model layout'\n",
+                       "expected": "Model/IdEnsArray.v parts / neuron_slices / out_slices",
+                       "correspondence": "harness.props.c16 structural tie"}, found_input=behavioural)
